@@ -5,10 +5,12 @@ package main
 // accept queue is full (connect stalls), and a peer that accepts and never reads.
 
 import (
+	"crypto/tls"
 	"encoding/binary"
 	"fmt"
 	"io"
 	"net"
+	"strings"
 	"sync"
 	"sync/atomic"
 	"syscall"
@@ -56,8 +58,10 @@ func (l *c09Log) add(e c09Event) {
 type c09Peer struct {
 	log     *c09Log
 	acts    []c09Act
-	mode    string // accept | accept-close | noread | noread-early
-	earlyMs int    // noread-early: after this delay the peer writes a reply for each of the ids 1..earlyN
+	mode    string      // accept | accept-close | noread | noread-early | tls | tls-slow | tls-silent | tls-untrusted
+	tlsConf *tls.Config // tls modes: the server side configuration
+	hsMs    int         // tls-slow: the peer starts its side of the handshake this long after accepting
+	earlyMs int         // noread-early: after this delay the peer writes a reply for each of the ids 1..earlyN
 	earlyN  int
 	ln      net.Listener
 	uc      *net.UDPConn
@@ -91,8 +95,11 @@ func c09Reply(id int32, pay uint32) []byte {
 	return bs
 }
 
-func newC09Peer(log *c09Log, conn string, acts []c09Act) (*c09Peer, error) {
+func newC09Peer(log *c09Log, conn string, acts []c09Act, opt func(*c09Peer)) (*c09Peer, error) {
 	p := &c09Peer{log: log, acts: acts, mode: conn}
+	if opt != nil {
+		opt(p)
+	}
 	switch conn {
 	case "refuse":
 		// a socket that is bound but not listening: connect is refused, and nobody else can take the port
@@ -179,6 +186,27 @@ func (p *c09Peer) acceptLoop() {
 		p.mu.Lock()
 		p.conns = append(p.conns, c)
 		p.mu.Unlock()
+		if strings.HasPrefix(p.mode, "tls") {
+			// "accept" is logged when the connection is usable, i.e. after the handshake
+			if p.mode == "tls-silent" {
+				continue // the TCP connection is accepted, the handshake never answered
+			}
+			go func(c net.Conn) {
+				if p.mode == "tls-slow" {
+					time.Sleep(time.Duration(p.hsMs) * time.Millisecond)
+				}
+				tc := tls.Server(c, p.tlsConf)
+				tc.SetDeadline(time.Now().Add(5 * time.Second))
+				if err := tc.Handshake(); err != nil {
+					c.Close()
+					return
+				}
+				tc.SetDeadline(time.Time{})
+				p.log.add(c09Event{Kind: "accept", Call: -1})
+				p.serve(tc)
+			}(c)
+			continue
+		}
 		p.log.add(c09Event{Kind: "accept", Call: -1})
 		switch p.mode {
 		case "accept-close":
